@@ -72,6 +72,13 @@ func NewExpander(template string, createVariableResolver VariableResolverCreator
 			if vexprSubmatches == nil {
 				return Empty, fmt.Errorf("unrecognized variable expression '${%s}'", vexpr)
 			}
+			for _, boundIndex := range []int{capturedStartIndex, capturedEndIndex} {
+				if bound := vexprSubmatches[boundIndex]; bound != "" {
+					if _, err := strconv.Atoi(bound); err != nil {
+						return Empty, fmt.Errorf("invalid substring bound in '${%s}': %w", vexpr, err)
+					}
+				}
+			}
 			vname := vexprSubmatches[capturedNameIndex]
 			vprovider, err := createVariableResolver(vname)
 			if err != nil {
